@@ -575,11 +575,25 @@ class PythonToIrCompiler:
             if ty is None:
                 self.error(node, "Undefined variable")
             else:
-                mem = self.emit(ir.Alloc(f"alloc_{name}", 8, 8))
-                addr = self.emit(ir.AddressOf(mem, f"addr_{name}"))
+                mem = ir.Alloc(f"alloc_{name}", 8, 8)
+                addr = ir.AddressOf(mem, f"addr_{name}")
+                self.emit_in_entry(mem)
+                self.emit_in_entry(addr)
                 var = Var(addr, True, ty)
                 self.local_map[name] = var
         return var
+
+    def emit_in_entry(self, instruction):
+        """Place an instruction in the entry block of the current function,
+        such that it dominates all uses (a variable can be assigned first
+        inside a branch or a loop)."""
+        entry = self.builder.function.entry
+        if entry.is_closed:
+            entry.insert_instruction(
+                instruction, before_instruction=entry.last_instruction
+            )
+        else:
+            entry.add_instruction(instruction)
 
     def common_type(self, ty1, ty2):
         """Determine the best target type for two input types.
